@@ -311,7 +311,7 @@ func checkFailure(r *Run, twin *Run, ev *Eval, fj *JobRec, m manifest, persisten
 				continue
 			}
 			for _, b := range r.Jobs {
-				if b.Inc > 1 && b.Key() == a.Key() && b.Phase == a.Phase {
+				if b.Inc > 1 && b.Id() == a.Id() {
 					add("completed-job-reexecuted-after-failure", fmt.Sprintf("%s (%s) had completed before the failure but was executed again on restart", a.Key(), a.Phase))
 				}
 			}
